@@ -43,6 +43,10 @@ def env_knobs(rng, knobs, unusable_tmp=False):
                 "BREADLOG_CONFIG": "/nonexistent.yaml", "GITHUB_ACTIONS": "true", "COLUMNS": "20", "XDG_CACHE_HOME": "/nonexistent"}
         ks = rng.sample(sorted(pool), rng.randrange(1, 5))
         knobs["env"] = {k: pool[k] for k in ks}
+    if rng.random() < 0.12:
+        # where the simulated wall clock stands: the epoch, 2000, either side of 2^31 and 2^32 seconds, long ago relative to
+        # every file's mtime, far ahead of it
+        knobs["clock"] = rng.choice([1, 946684800, 2147483640, 2147483650, 4294967290, 4294967300, 1600000000, 7258118400])
     r = rng.random()
     if r < 0.12:
         knobs["tmpdir_rel"] = True
